@@ -522,6 +522,12 @@ func (m *metadataAPI) ResumeStream(ctx context.Context, req *proto.ResumeStreamO
 	wg.Add(len(req.Partitions))
 	for _, partitionID := range req.Partitions {
 		partition := m.GetPartition(req.Stream, partitionID)
+		if partition == nil {
+			// The stream was deleted after the resume was applied: there is
+			// no partition leader to wait for.
+			wg.Done()
+			continue
+		}
 		m.startGoroutineWithArgs(func(args ...interface{}) {
 			m.waitForPartitionLeader(ctx, args[0].(*proto.Partition))
 			wg.Done()
